@@ -2146,14 +2146,37 @@ pub(crate) fn cleanup_stale_versioned_index(
 		let empty: &[u8] = &[];
 		let iter = guard.range(empty..)?;
 
+		// User key whose barrier entry (REPLACE / hard DELETE) is being removed.
+		// The entries that follow for the same user key are the older versions
+		// that the barrier erased: they go with it, or they would show up again
+		// in the history once the barrier is gone (entries with inline values
+		// are never stale on their own).
+		let mut erased_below: Option<Vec<u8>> = None;
+
 		for entry in iter {
 			let (key, value) = entry?;
+			if key.len() < 16 {
+				// not an internal key (a damaged index): nothing to decide here
+				erased_below = None;
+				continue;
+			}
+			let ikey = crate::InternalKeyRef::from_encoded(&key);
+			if let Some(user_key) = &erased_below {
+				if ikey.user_key() == user_key.as_slice() {
+					stale_keys.push(key.to_vec());
+					continue;
+				}
+				erased_below = None;
+			}
 			// Check if this entry has a VLog pointer to a deleted file
 			if let Ok(loc) = ValueLocation::decode(&value) {
 				if loc.is_value_pointer() {
 					if let Ok(ptr) = ValuePointer::decode(&loc.value) {
 						if ptr.file_id < min_valid_file_id {
 							stale_keys.push(key.to_vec());
+							if ikey.is_replace() || ikey.is_hard_delete_marker() {
+								erased_below = Some(ikey.user_key().to_vec());
+							}
 						}
 					}
 				}
